@@ -33,15 +33,20 @@ package cputensor
 //@   requires 0 <= dim && dim <= len(dims)
 //@   ensures[C06] len(res) == len(dims)+1 && res[dim] == 1
 //@   ensures[C06] forall(k, 0, dim, res[k] == dims[k]) && forall(k, dim+1, len(res), res[k] == dims[k-1])
+// PROD (paper lemma): inserting / removing a factor 1, or replacing a suffix by its product, keeps the product of a sequence
+//@   trusted prod(res, 0, len(res)) == prod(dims, 0, len(dims))
 
 //@ func squeezeDims
 //@   requires 0 <= dim && dim < len(dims)
 //@   ensures[C06,C05] len(res) == len(dims)-1
 //@   ensures[C06,C05] forall(k, 0, dim, res[k] == dims[k]) && forall(k, dim, len(res), res[k] == dims[k+1])
+//@   trusted imp(dims[dim] == 1, prod(res, 0, len(res)) == prod(dims, 0, len(dims)))
 
 //@ func flattenDims
 //@   requires 0 <= dim && dim < len(dims)
 //@   ensures[C06] len(res) == dim+1 && forall(k, 0, dim, res[k] == dims[k]) && res[dim] == prod(dims, dim, len(dims))
+//@   trusted prod(res, 0, len(res)) == prod(dims, 0, len(dims))
+//@   trusted imp(forall(k, 0, len(dims), dims[k] > 0), res[dim] > 0)
 //@   loop 0 invariant dim <= i && i <= len(dims) && nElems == prod(dims, dim, i)
 //@   loop 0 decreases len(dims) - i
 
@@ -85,7 +90,8 @@ package cputensor
 //@ define chainPre(y) := y != nil && y.gctx != nil && dirtyT(y) && isGrad(gradOf(y)) && sameShape(gradOf(y), y)
 //@ define bdimT(a, b, k, n) := ite(k - (n - rank(a)) >= 0 && k - (n - rank(b)) >= 0, imax(dim(a, k-(n-rank(a))), dim(b, k-(n-rank(b)))),
 //@                              ite(k - (n - rank(a)) >= 0, dim(a, k-(n-rank(a))), dim(b, k-(n-rank(b)))))
-//@ predicate bcompat(a T, b T) := forall(k, 0, imin(rank(a), rank(b)), dim(a, rank(a)-1-k) == dim(b, rank(b)-1-k) || dim(a, rank(a)-1-k) == 1 || dim(b, rank(b)-1-k) == 1)
+// right-aligned compatibility: positions i of a and j of b that are equally far from the end hold equal sizes or a 1
+//@ predicate bcompat(a T, b T) := forall(i, 0, rank(a), forall(j, 0, rank(b), imp(rank(a) - i == rank(b) - j, dim(a, i) == dim(b, j) || dim(a, i) == 1 || dim(b, j) == 1)))
 //@ predicate bshape(o T, a T, b T) := rank(o) == imax(rank(a), rank(b)) && forall(k, 0, rank(o), dim(o, k) == bdimT(a, b, k, rank(o)))
 
 //@ func CPUTensor.GradContext
@@ -113,12 +119,14 @@ package cputensor
 //@ predicate redShape(o T, t T, d Int) := rank(o) == rank(t) - 1 && forall(k, 0, d, dim(o, k) == dim(t, k)) && forall(k, d, rank(o), dim(o, k) == dim(t, k+1))
 //@ predicate unsqShape(o T, t T, d Int) := rank(o) == rank(t) + 1 && dim(o, d) == 1 && forall(k, 0, d, dim(o, k) == dim(t, k)) && forall(k, d+1, rank(o), dim(o, k) == dim(t, k-1))
 //@ predicate trShape(o T, t T) := rank(o) == rank(t) && forall(k, 0, rank(t)-2, dim(o, k) == dim(t, k)) && dim(o, rank(t)-2) == dim(t, rank(t)-1) && dim(o, rank(t)-1) == dim(t, rank(t)-2)
-//@ define hasShape(o, shape) := rank(o) == len(shape) && forall(k, 0, len(shape), dim(o, k) == shape[k])
-//@ define bcastOK(t, shape) := forall(k, 0, len(shape), shape[k] > 0) && rank(t) <= len(shape)
-//@                             && forall(k, 0, rank(t), dim(t, k) == shape[k + len(shape) - rank(t)] || dim(t, k) == 1)
+//@ predicate hasShapeA(o T, S Idx, n Int) := rank(o) == n && forall(k, 0, n, dim(o, k) == S[k])
+//@ define hasShape(o, shape) := hasShapeA(o, idx(shape), len(shape))
+//@ predicate bcastOKA(t T, S Idx, n Int) := forall(k, 0, n, S[k] > 0) && rank(t) <= n && forall(k, 0, rank(t), dim(t, k) == S[k + n - rank(t)] || dim(t, k) == 1)
+//@ define bcastOK(t, shape) := bcastOKA(t, idx(shape), len(shape))
+//@ predicate isBTarget(a T, b T, S Idx, n Int) := n == imax(rank(a), rank(b)) && forall(k, 0, n, S[k] == bdimT(a, b, k, n))
 //@ define close(a, b) := abs(a - b) <= 1e-240
 // batch dimensions (all but the last two) are broadcast against each other for MatMul
-//@ predicate mmcompat(a T, b T) := forall(k, 2, imin(rank(a), rank(b)), dim(a, rank(a)-1-k) == dim(b, rank(b)-1-k) || dim(a, rank(a)-1-k) == 1 || dim(b, rank(b)-1-k) == 1)
+//@ predicate mmcompat(a T, b T) := forall(i, 0, rank(a)-2, forall(j, 0, rank(b)-2, imp(rank(a) - i == rank(b) - j, dim(a, i) == dim(b, j) || dim(a, i) == 1 || dim(b, j) == 1)))
 //@ predicate mmshape(o T, a T, b T) := rank(o) == imax(rank(a), rank(b)) && forall(k, 0, rank(o)-2, dim(o, k) == bdimT(a, b, k, rank(o)))
 //@                            && dim(o, rank(o)-2) == dim(a, rank(a)-2) && dim(o, rank(o)-1) == dim(b, rank(b)-1)
 
@@ -136,3 +144,202 @@ package cputensor
 //@ lemma bcompatSame: forallT(a, forallT(b, imp(sameShape(a, b), bcompat(a, b))))
 //@ lemma unsqRed: forallT(u, forallT(m, forallT(x, forallI(d, imp(unsqShape(u, m, d) && redShape(m, x, d) && 0 <= d && d < rank(x),
 //@                   rank(u) == rank(x) && forall(k, 0, rank(x), dim(u, k) == dim(x, k) || dim(u, k) == 1) && bcompat(x, u))))))
+
+/* ---------------- link between the representation and the abstract tensor ---------------- */
+
+// Representation invariant of every tensor that exists when a call starts: dims is the shape. It is established by the
+// constructors (the functions below that allocate a CPUTensor) and preserved because no function writes the dims of a
+// pre-existing object (frame obligations).
+//@ axiom dimsLink: forallT(x, imp(x != nil && preexisting(x), len(x.dims) == rank(x) && forall(k, 0, rank(x), x.dims[k] == dim(x, k))
+//@                 && prod(x.dims, 0, len(x.dims)) == nelems(x)))
+
+/* ---------------- L2 leaf functions: contracts assumed here, checked by the bounded stand-ins of /verif/rac ---------------- */
+
+//@ func applyUnaryFuncOnTensorElemWise
+//@   requires t != nil
+//@   assumed L2 tree recursion over nested []any (calcData); bounded stand-in: rac TestElementwise
+//@   returns fresh
+//@   ensures o != nil && sameShape(o, t) && forallJ(J, imp(inb(o, J), el(o, J) == app1(suf, el(t, J))))
+
+//@ func applyBinaryFuncOnTensorsElemWise
+//@   requires t1 != nil && t2 != nil && sameShape(t1, t2)
+//@   assumed L2 tree recursion over nested []any (calcData); bounded stand-in: rac TestElementwise
+//@   returns fresh
+//@   ensures o != nil && sameShape(o, t1) && forallJ(J, imp(inb(o, J), el(o, J) == app2(sbf, el(t1, J), el(t2, J))))
+
+//@ func CPUTensor.reduceDimUsingFunc
+//@   requires 0 <= dim && dim < rank(t)
+//@   assumed L2 element generator with reduced dimension (closure state, slice of windows); bounded stand-in: rac TestReducers
+//@   returns fresh
+//@   ensures o != nil && redShape(o, t, dim) && forallJ(J, imp(inb(o, J), el(o, J) == appT(trf, fibre(t, dim, J))))
+
+//@ func CPUTensor.sum
+//@   assumed L2 fold over the nested data (reduceByAssociativeFunc.trav); bounded stand-in: rac TestReducers
+//@   ensures value == tsum(t)
+//@ func CPUTensor.max
+//@   assumed L2 fold over the nested data; bounded stand-in: rac TestReducers
+//@   ensures value == tmax(t)
+//@ func CPUTensor.min
+//@   assumed L2 fold over the nested data; bounded stand-in: rac TestReducers
+//@   ensures value == tmin(t)
+//@ func CPUTensor._var
+//@   assumed L2 fold over the nested data; bounded stand-in: rac TestReducers
+//@   ensures value == tvar(t)
+
+//@ func CPUTensor.avg
+//@   requires preexisting(t)
+//@   ensures[C05] value == tsum(t) / real(nelems(t))
+//@ func CPUTensor.mean
+//@   requires preexisting(t)
+//@   ensures[C05] value == tsum(t) / real(nelems(t))
+//@ func CPUTensor.std
+//@   ensures[C05] value == sqrt(tvar(t))
+
+/* ---------------- accessors.go ---------------- */
+
+//@ define cidxOK(cidx, t) := len(cidx) == rank(t) && forall(k, 0, len(cidx), 0 <= cidx[k].From && cidx[k].From < cidx[k].To && cidx[k].To <= dim(t, k))
+
+//@ func CPUTensor.copiedSliceOf
+//@   requires cidxOK(index, t)
+//@   assumed L2 tree recursion (copyData) over nested []any; bounded stand-in: rac TestSlicePatch
+//@   returns fresh
+//@   ensures o != nil && rank(o) == rank(t) && forall(k, 0, rank(t), dim(o, k) == index[k].To - index[k].From)
+//@   ensures forallJ(J, imp(inb(o, J), el(o, J) == el(t, addFrom(J, index))))
+
+//@ func CPUTensor.copiedWithPatchOf
+//@   requires u != nil && rank(u) == rank(t) && len(index) == rank(t)
+//@   requires forall(k, 0, len(index), 0 <= index[k].From && index[k].To - index[k].From == dim(u, k) && index[k].To <= dim(t, k))
+//@   assumed L2 tree recursion (copyData with write-through views) over nested []any; bounded stand-in: rac TestSlicePatch
+//@   returns fresh
+//@   ensures o != nil && sameShape(o, t)
+//@   ensures forallJ(J, imp(inb(o, J), el(o, J) == ite(forall(k, 0, rank(u), index[k].From <= J[k] && J[k] < index[k].To), el(u, subFrom(J, index)), el(t, J))))
+
+//@ func CPUTensor.slice
+//@   requires preexisting(t) && sliceOK(index, t)
+//@   returns fresh
+//@   ensures[C06] o != nil && sliceShape(o, t, index) && forallJ(J, imp(inb(o, J), el(o, J) == el(t, addFrom(J, index))))
+
+//@ func CPUTensor.patch
+//@   requires preexisting(t) && u != nil && preexisting(u) && patchOK(index, u, t)
+//@   returns fresh
+//@   ensures[C06] o != nil && sameShape(o, t)
+//@   ensures[C06] forallJ(J, imp(inb(o, J), el(o, J) == ite(inBox(J, index, u), el(u, subFrom(J, index)), el(t, J))))
+
+//@ func CPUTensor.dataAt
+//@   requires len(index) == rank(t) && forall(k, 0, len(index), 0 <= index[k] && index[k] < dim(t, k))
+//@   assumed L2 walk down the nested []any with unchecked type assertions; bounded stand-in: rac TestAt
+//@   ensures data == boxReal(el(t, idx(index)))
+
+/* ---------------- shape_modifiers.go ---------------- */
+
+//@ func CPUTensor.transpose
+//@   requires rank(t) >= 2
+//@   assumed L2 element generator (odometer with swapped carry order) + initWith.fill; bounded stand-in: rac TestShapeOps
+//@   returns fresh
+//@   ensures o != nil && trShape(o, t) && forallJ(J, imp(inb(o, J), el(o, J) == el(t, swap2(J, rank(t)))))
+
+//@ func CPUTensor.reshape
+//@   requires forall(k, 0, len(shape), shape[k] > 0) && prod(shape, 0, len(shape)) == nelems(t)
+//@   assumed L2 linear element generator + initWith.fill (row-major sequence preserved: lemma LEX); bounded stand-in: rac TestShapeOps
+//@   returns fresh
+//@   ensures o != nil && hasShape(o, shape) && nelems(o) == nelems(t) && forall(p, 0, nelems(t), flat(o, p) == flat(t, p))
+
+//@ func CPUTensor.broadcast
+//@   requires bcastOK(t, shape)
+//@   assumed L2 broadcast element generator (three-way carry loop) + initWith.fill; bounded stand-in: rac TestShapeOps
+//@   returns fresh
+//@   ensures o != nil && hasShape(o, shape) && forallJ(J, imp(inb(o, J), el(o, J) == el(t, proj(t, o, J))))
+
+//@ func CPUTensor.unSqueeze
+//@   requires preexisting(t) && 0 <= dim && dim <= rank(t)
+//@   returns fresh
+//@   ensures[C06] o != nil && unsqShape(o, t, dim) && nelems(o) == nelems(t) && forall(p, 0, nelems(t), flat(o, p) == flat(t, p))
+
+//@ func CPUTensor.squeeze
+//@   requires preexisting(t) && 0 <= dim && dim < rank(t) && dim(t, dim) == 1
+//@   returns fresh
+//@   ensures[C06] o != nil && redShape(o, t, dim) && nelems(o) == nelems(t) && forall(p, 0, nelems(t), flat(o, p) == flat(t, p))
+
+//@ func CPUTensor.flatten
+//@   requires preexisting(t) && 0 <= fromDim && fromDim < rank(t)
+//@   returns fresh
+//@   ensures[C06] o != nil && rank(o) == fromDim + 1 && forall(k, 0, fromDim, dim(o, k) == dim(t, k))
+//@   ensures[C06] nelems(o) == nelems(t) && forall(p, 0, nelems(t), flat(o, p) == flat(t, p))
+
+// LEX (paper lemma, DESIGN.md section 8): inserting or removing a dimension of size 1 does not change the row-major
+// position of any element, so the flat view and the index view of UnSqueeze / Squeeze agree.
+//@ axiom lexUnsq: forallT(o, forallT(t, forallI(d, imp(unsqShape(o, t, d) && nelems(o) == nelems(t) && forall(p, 0, nelems(t), flat(o, p) == flat(t, p)),
+//@                forallJ(J, imp(inb(o, J), el(o, J) == el(t, del(J, d))))))))
+//@ axiom lexSq: forallT(o, forallT(t, forallI(d, imp(redShape(o, t, d) && dim(t, d) == 1 && nelems(o) == nelems(t) && forall(p, 0, nelems(t), flat(o, p) == flat(t, p)),
+//@                forallJ(J, imp(inb(o, J), el(o, J) == el(t, ins(J, d, 0))))))))
+
+/* ---------------- operators.go (dot / matmul / equals) ---------------- */
+
+//@ func CPUTensor.dot
+//@   requires u != nil && sameShape(t, u) && rank(t) >= 1
+//@   assumed L2 batch generator + dotProductOf1DInputs; bounded stand-in: rac TestLinalg
+//@   returns fresh
+//@   ensures o != nil && rank(o) == rank(t) - 1 && forall(k, 0, rank(o), dim(o, k) == dim(t, k))
+//@   ensures forallJ(J, imp(inb(o, J), el(o, J) == dsum(t, u, J)))
+
+//@ func CPUTensor.matMul
+//@   requires u != nil && rank(t) >= 2 && rank(u) == rank(t) && forall(k, 0, rank(t)-2, dim(t, k) == dim(u, k)) && dim(t, rank(t)-1) == dim(u, rank(u)-2)
+//@   assumed L2 batch generator + matMulDataOf2DInputs; bounded stand-in: rac TestLinalg
+//@   returns fresh
+//@   ensures o != nil && rank(o) == rank(t) && forall(k, 0, rank(t)-2, dim(o, k) == dim(t, k)) && dim(o, rank(t)-2) == dim(t, rank(t)-2) && dim(o, rank(t)-1) == dim(u, rank(u)-1)
+//@   ensures forallJ(J, imp(inb(o, J), el(o, J) == msum(t, u, J)))
+
+//@ func CPUTensor.equals
+//@   requires u != nil && sameShape(t, u)
+//@   assumed counting argument (sum of 0/1 values >= n iff all are 1: lemma COUNT); bounded stand-in: rac TestElementwise
+//@   ensures are == forallJ(J, imp(inb(t, J), close(el(t, J), el(u, J))))
+
+/* ---------------- initializers.go ---------------- */
+
+//@ func constTensor
+//@   requires forall(k, 0, len(dims), dims[k] > 0)
+//@   assumed L2 initWith.fill with a constant generator; bounded stand-in: rac TestConstructors
+//@   returns fresh
+//@   ensures t != nil && hasShape(t, dims) && forallJ(J, imp(inb(t, J), el(t, J) == value))
+
+//@ func eyeMatrix
+//@   requires n > 0
+//@   assumed L2 initWith.fill with the counter generator (non-linear: c % (n+1) == 0 iff row == col); bounded stand-in: rac TestConstructors
+//@   returns fresh
+//@   ensures t != nil && rank(t) == 2 && dim(t, 0) == n && dim(t, 1) == n && forallJ(J, imp(inb(t, J), el(t, J) == ite(J[0] == J[1], 1.0, 0.0)))
+
+//@ func uniformRandomTensor
+//@   requires l < u && forall(k, 0, len(dims), dims[k] > 0)
+//@   assumed L2 initWith.fill with a drawing generator; gonum distuv (external); bounded stand-in: rac TestRandom
+//@   returns fresh
+//@   ensures t != nil && hasShape(t, dims) && forallJ(J, imp(inb(t, J), l <= el(t, J) && el(t, J) < u))
+
+//@ func normalRandomTensor
+//@   requires s > 0 && forall(k, 0, len(dims), dims[k] > 0)
+//@   assumed L2 initWith.fill with a drawing generator; gonum distuv (external); bounded stand-in: rac TestRandom
+//@   returns fresh
+//@   ensures t != nil && hasShape(t, dims)
+
+/* ---------------- cputensor_helpers.go ---------------- */
+
+//@ func assertCPUTensor
+//@   ensures[C09] iff(err == nil, t != nil) && imp(err == nil, ct == t) && imp(err != nil, ct == nil)
+
+//@ func assertCPUTensors
+//@   ensures[C09] iff(err == nil, forall(k, 0, len(ts), ts[k] != nil))
+//@   ensures imp(err == nil, len(cts) == len(ts) && forall(k, 0, len(ts), cts[k] == ts[k]))
+//@   loop 0 invariant len(cts) == len(ts) && forall(k, 0, i, ts[k] != nil && cts[k] == ts[k])
+
+//@ func broadcastForBinaryOp
+//@   requires tinv(ct1) && tinv(ct2) && preexisting(ct1) && preexisting(ct2)
+//@   returns fresh
+//@   uses btargetCompat1, btargetCompat2, btargetCompat3, btargetShape
+//@   ensures[C03,C07] iff(err == nil, bcompat(ct1, ct2))
+//@   ensures[C03,C07] imp(err == nil, bct1 != nil && bct2 != nil && bshape(bct1, ct1, ct2) && sameShape(bct1, bct2))
+//@   ensures[C03,C07] imp(err == nil, forallJ(J, imp(inb(bct1, J), el(bct1, J) == el(ct1, proj(ct1, bct1, J)) && el(bct2, J) == el(ct2, proj(ct2, bct2, J)))))
+//@   ensures[C08] imp(err == nil, ctx1(bct1, ct1) && ctx1(bct2, ct2) && edgeInv(bct1) && edgeInv(bct2) && tinv(bct1) && tinv(bct2))
+
+//@ lemma btargetCompat1: forallT(a, forallT(b, forallJ(S, forallI(n, imp(isBTarget(a, b, S, n) && bcastOKA(a, S, n) && bcastOKA(b, S, n), bcompat(a, b))))))
+//@ lemma btargetCompat2: forallT(a, forallT(b, forallJ(S, forallI(n, imp(isBTarget(a, b, S, n) && bcompat(a, b), bcastOKA(a, S, n))))))
+//@ lemma btargetCompat3: forallT(a, forallT(b, forallJ(S, forallI(n, imp(isBTarget(a, b, S, n) && bcompat(a, b), bcastOKA(b, S, n))))))
+//@ lemma btargetShape: forallT(a, forallT(b, forallT(o, forallJ(S, forallI(n, imp(isBTarget(a, b, S, n) && hasShapeA(o, S, n), bshape(o, a, b)))))))
